@@ -242,6 +242,47 @@ export function collisionFamily(maxK) {
   return out;
 }
 
+// Sibling-relative specifiers: in k directories a file use.ts refers to ITS OWN sibling t.ts by the same specifier
+// text "./t" (inline import type, typeof import, named import, namespace import, re-export); the entry file imports
+// every use.ts. The same specifier text means a different file in every directory.
+export const SIBLING_DIRS = ["", "a/", "a/x/", "b/", "b/x/"];
+export function siblingFamily(maxK) {
+  const out = [];
+  const n = SIBLING_DIRS.length;
+  const styles = {
+    importtype: 'export type Use = { t: import("./t").T };',
+    typeofimport: 'export type Use = { t: import("./t").T, c: typeof import("./t").c };',
+    named: 'import { T } from "./t";\nexport type Use = { t: T };',
+    namespace: 'import * as M from "./t";\nexport type Use = { t: M.T, c: typeof M.c };',
+    reexport: 'export { T as Use } from "./t";',
+  };
+  for (let mask = 1; mask < 1 << n; mask++) {
+    const idx = [];
+    for (let i = 0; i < n; i++) if (mask & (1 << i)) idx.push(i);
+    if (idx.length < 2 || idx.length > maxK) continue;
+    for (const [style, text] of Object.entries(styles))
+      for (const reverse of [false, true]) {
+        const files = {};
+        const imports = [];
+        const entries = [];
+        const expect = {};
+        const order = reverse ? idx.slice().reverse() : idx;
+        for (const i of order) {
+          const d = SIBLING_DIRS[i];
+          files[d + "t.ts"] = `export type T = { f${i}: ${i} };\nexport const c = { k${i}: ${i} } as const;`;
+          files[d + "use.ts"] = text;
+          imports.push(`import { Use as U${i} } from "./${d}use";`);
+          entries.push(`A${i}: U${i}`);
+          const wrap = (j) => (style === "reexport" ? `({"f${j}": ${j}})` : style === "typeofimport" || style === "namespace" ? `({"t": {"f${j}": ${j}}, "c": {"k${j}": ${j}}})` : `({"t": {"f${j}": ${j}}})`);
+          expect[`A${i}`] = [[wrap(i), true], ...idx.filter((j) => j !== i).map((j) => [wrap(j), false])];
+        }
+        files["entry.ts"] = `${imports.join("\n")}\nexport const Parsers = parse.buildParsers<{ ${entries.join(", ")} }>();`;
+        out.push({ name: `sibling-specifier:${style}${reverse ? ":rev" : ""}:` + idx.map((i) => SIBLING_DIRS[i] || ".").join("+"), files, expect, keys: Object.keys(expect) });
+      }
+  }
+  return out;
+}
+
 // Value routes: a constant of a dependency file reaches `typeof` in the entry file by every import/export route,
 // the dependency file is long (its offsets exceed every line of the entry file) and its expression refers to
 // constants that are local to it; `broken` variants put an expression beff cannot lower at the same place, so the
@@ -516,7 +557,7 @@ export async function run() {
       );
     }
     // special layouts
-    const collisions = collisionFamily(TIER === "thorough" ? 4 : 3);
+    const collisions = [...collisionFamily(TIER === "thorough" ? 4 : 3), ...siblingFamily(TIER === "thorough" ? 3 : 2)];
     stats.collisionLayouts = collisions.length;
     for (const sp of [...specialLayouts(), ...collisions, ...valueRouteLayouts(), ...starGraphLayouts()]) {
       stats.special++;
@@ -555,7 +596,7 @@ export async function run() {
     coverage: {
       evaluations: stats.evaluations,
       distinct_nontrivial: outcomes.size,
-      rule: "7 base programs (alias chain, generics, interface extends chain, enums, const/typeof, mutual recursion, discriminated variants) × every set partition of their declarations into <=3 blocks × {first block in the entry file | all blocks in dependency files} × 10 uniform import/export styles + a mixed per-edge assignment + .d.ts and .tsx file names" + (TIER === "thorough" ? "" : " (quick: seed-selected half of the layouts)") + "; oracle: no diagnostics, accept vectors over U(T) (default+strict) and hash256 equal to the single-file program; plus 4 hand-written collision layouts and the generated same-name family (the same type name, generic name and user name declared in k files, every k-subset (k = 2.." + (TIER === "thorough" ? 4 : 3) + ") of 8 paths whose directories share prefixes of different lengths; 4 parsers per file with generator-known expectations) 63 value-route layouts (a constant of a long dependency file reaching typeof through 7 import/export routes × 3 expression forms × shadowing constants in the entry file, plus 3 expressions that cannot be lowered per route whose diagnostic must name the dependency file), 32 re-converging export-star graphs (types and values of two leaf modules through all.ts -> a.ts, b.ts in every star order), 24 namespace-as-value layouts and 9 unresolvable layouts that must give a diagnostic. distinct_nontrivial = base parsers with both verdicts",
+      rule: "7 base programs (alias chain, generics, interface extends chain, enums, const/typeof, mutual recursion, discriminated variants) × every set partition of their declarations into <=3 blocks × {first block in the entry file | all blocks in dependency files} × 10 uniform import/export styles + a mixed per-edge assignment + .d.ts and .tsx file names" + (TIER === "thorough" ? "" : " (quick: seed-selected half of the layouts)") + "; oracle: no diagnostics, accept vectors over U(T) (default+strict) and hash256 equal to the single-file program; plus 4 hand-written collision layouts and the generated same-name family (the same type name, generic name and user name declared in k files, every k-subset (k = 2.." + (TIER === "thorough" ? 4 : 3) + ") of 8 paths whose directories share prefixes of different lengths; 4 parsers per file with generator-known expectations), the sibling-specifier family (k directories whose use.ts refers to its own sibling by the same specifier text \"./t\" in 5 styles, both import orders), 63 value-route layouts (a constant of a long dependency file reaching typeof through 7 import/export routes × 3 expression forms × shadowing constants in the entry file, plus 3 expressions that cannot be lowered per route whose diagnostic must name the dependency file), 32 re-converging export-star graphs (types and values of two leaf modules through all.ts -> a.ts, b.ts in every star order), 24 namespace-as-value layouts and 9 unresolvable layouts that must give a diagnostic. distinct_nontrivial = base parsers with both verdicts",
       samples,
       exhaustive: TIER === "thorough",
       layouts_compiled: stats.layouts,
